@@ -155,6 +155,28 @@ Definition case_lines (u : string * ty) : list string :=
         fst u ++ ";p;" ++ opn ++ ";" ++ path_text path ++ ";" ++ pr_val true v ++ tab ++
         pr_out n (elem_loc n v path) o ++ tab ++ pr_demand op dmp ml d)
       [OpGet; OpGetTo]) (paths n v))
-  (combine (seqn (List.length (variants n))) (variants n)).
+  (combine (seqn (List.length (variants n))) (variants n)) ++
+  (* the other argument forms (the object by value: the element of a private copy, never the live one; **T: as *T) on
+     the most populated value - a header that reaches a by-value source otherwise than by copying it shows here *)
+  match rev (variants n) with
+  | [] => []
+  | v :: _ =>
+    flat_map (fun form : string =>
+      flat_map (fun pt : tagged =>
+        let '(path, ptag) := pt in
+        let d := get_demand n v path in
+        let ml := (match live_loc n v path with Some _ => true | None => false end) && String.eqb form "pp" in
+        let dmp := match nav n v path with NElem en _ => dump_n (set_ptr en false) | _ => dump end in
+        map (fun op : gop =>
+          let a := arg_of_form form v in
+          let o := match op with OpGet => get false n a path | OpGetTo => get_to false n a path (Some sentinel) end in
+          let opn := match op with OpGet => "get" | OpGetTo => "getto" end in
+          fst u ++ "." ++ form ++ "." ++ opn ++ "." ++ path_text path ++ tab ++
+          opn ++ ",form-" ++ form ++ "," ++ ptag ++ "," ++ nav_tag n v path ++ "," ++ out_kind o ++ tab ++
+          fst u ++ ";" ++ form ++ ";" ++ opn ++ ";" ++ path_text path ++ ";" ++ pr_val true v ++ tab ++
+          pr_out n (elem_loc n v path) o ++ tab ++ pr_demand op dmp ml d)
+        [OpGet; OpGetTo]) (paths n v))
+    ["v"]
+  end.
 
 Definition cases (tier : Z) (seed : Z) : list string := flat_map case_lines (emit_units tier).
